@@ -88,7 +88,7 @@ def forms():
     F.append(("HSET", ["x", "y"], [(), ("c",)], [{}]))
     F.append(("HRESET", ["x", "y"], [()], [{}]))
     F.append(("HPAINT", ["x", "y"], [(), ("c",), ("c", "b")], [{}]))
-    F.append(("HPRINT", ["x", "y", "t"], [()], [{"tkind": "str"}, {"tkind": "num"}]))
+    F.append(("HPRINT", ["x", "y", "t"], [()], [{"tkind": "str"}, {"tkind": "num"}, {"tkind": "long"}]))
     F.append(("HDRAW", ["s"], [()], [{}]))
     F.append(("PLAY", ["s"], [()], [{}]))
     F.append(("HBUFF", ["b", "s"], [()], [{}]))
@@ -108,7 +108,12 @@ def build_stmt(kind_name, req, present, extra, kinds):
     for nm in names:
         if nm in req or nm in present:
             okind = kinds[k % len(kinds)]
-            if nm in ("s", "t") and kind_name in ("HDRAW", "PLAY") or (nm == "t" and extra.get("tkind") == "str"):
+            if nm == "t" and extra.get("tkind") == "long":
+                # a text as wide as the 40-column screen (the runtime's text parameter holds 80 characters whatever the
+                # program's string size is)
+                long_t = "PRESS ANY KEY TO START THE GAME - ENJOY!"
+                o[nm] = ("str", long_t) if okind not in ("expr", "tmp") else ("bin", "+", ("str", long_t[:24]), ("str", long_t[24:]))
+            elif nm in ("s", "t") and kind_name in ("HDRAW", "PLAY") or (nm == "t" and extra.get("tkind") == "str"):
                 o[nm] = str_operand(okind, k)
             else:
                 o[nm] = operand(okind, k)
